@@ -50,6 +50,9 @@ def src_hash() -> str:
 
 # --------------------------------------------------------------------------- numbers
 
+class NonFiniteValue(ValueError):
+    """a value handed to the exact-rational encoder is inf / nan"""
+
 def q(x) -> str:
     """exact rational string of a float / int / Fraction"""
     if isinstance(x, Fraction):
@@ -61,7 +64,7 @@ def q(x) -> str:
     else:
         x = float(x)
         if not math.isfinite(x):
-            raise ValueError(f'non-finite number {x}')
+            raise NonFiniteValue(f'non-finite number {x}')
         fr = Fraction(*x.as_integer_ratio())
     return str(fr.numerator) if fr.denominator == 1 else f'{fr.numerator}/{fr.denominator}'
 
@@ -107,6 +110,7 @@ class Rng(random.Random):
 
 class DriverError(Exception):
     pass
+
 
 class Driver:
     """client of lean/.lake/build/bin/ccdriver (line protocol)"""
